@@ -202,6 +202,36 @@ impl Share {
   }
 }
 
+// Verification hook (add-only, compiled only by `cargo kani`): lets out-of-tree proof
+// harnesses build a share with one field altered and read a share's fields, without going
+// through the byte encoding.
+#[cfg(kani)]
+#[allow(non_snake_case)]
+impl Share {
+  pub fn verif_from_parts(
+    threshold: u32,
+    S: star_sharks::Share,
+    C: Vec<u8>,
+    D: Vec<u8>,
+    J: [u8; MAC_LENGTH],
+  ) -> Share {
+    Share {
+      A: AccessStructure { threshold },
+      S,
+      C,
+      D,
+      J,
+      T: (),
+    }
+  }
+
+  pub fn verif_parts(
+    &self,
+  ) -> (u32, &star_sharks::Share, &[u8], &[u8], &[u8; MAC_LENGTH]) {
+    (self.A.threshold, &self.S, &self.C, &self.D, &self.J)
+  }
+}
+
 #[allow(non_snake_case)]
 impl Commune {
   pub fn new(
